@@ -52,6 +52,9 @@ func (p *Proof) IsValid(public Public) bool {
 	if p == nil {
 		return false
 	}
+	if p.Commitment == nil || p.S == nil || p.C == nil || p.Z1 == nil || p.Z3 == nil {
+		return false
+	}
 	if !public.Prover.ValidateCiphertexts(p.A) {
 		return false
 	}
